@@ -29,6 +29,7 @@
 #include <sys/mman.h>
 #include <sys/resource.h>
 #include <sys/wait.h>
+#include <sys/select.h>
 #include <unistd.h>
 #include <unordered_set>
 #include <vector>
@@ -256,6 +257,59 @@ inline Outcome de_outcome(const std::string &t) {
   }
   return o;
 }
+// Reads the child's report from fd until EOF.  While waiting it watches the child: a child that is SLEEPING (state S/D) and whose CPU time
+// has not moved for `blocked_s` consecutive seconds is blocked in a real system call (the harness kernels are simulated, nothing should
+// ever sleep for real) and is killed; *blocked is set.  Load cannot cause this verdict: a child that merely waits for a CPU is runnable
+// (state R), not sleeping.
+inline std::string read_child_report(int fd, pid_t pid, int blocked_s, bool *blocked) {
+  std::string t;
+  char buf[4096];
+  long last_cpu = -1;
+  int idle = 0;
+  *blocked = false;
+  for (;;) {
+    // select, not poll: several harnesses interpose poll() at link time (--wrap=poll) for the code under test
+    fd_set rf;
+    FD_ZERO(&rf);
+    FD_SET(fd, &rf);
+    struct timeval tv = {1, 0};
+    int pr = ::select(fd + 1, &rf, nullptr, nullptr, &tv);
+    if (pr < 0 && errno == EINTR) continue;
+    if (pr > 0) {
+      ssize_t r = read(fd, buf, sizeof buf);
+      if (r > 0) {
+        t.append(buf, (size_t)r);
+        continue;
+      }
+      if (r < 0 && errno == EINTR) continue;
+      break;  // EOF
+    }
+    // one second without output: look at the child
+    char path[64], line[1024];
+    snprintf(path, sizeof path, "/proc/%d/stat", (int)pid);
+    FILE *f = fopen(path, "r");
+    if (!f) continue;
+    size_t n = fread(line, 1, sizeof line - 1, f);
+    fclose(f);
+    line[n] = 0;
+    const char *rp = strrchr(line, ')');
+    char state = '?';
+    long ut = 0, stt = 0;
+    if (rp && sscanf(rp + 2, "%c %*d %*d %*d %*d %*d %*u %*u %*u %*u %*u %ld %ld", &state, &ut, &stt) == 3) {
+      if ((state == 'S' || state == 'D') && ut + stt == last_cpu)
+        idle++;
+      else
+        idle = 0;
+      last_cpu = ut + stt;
+      if (idle >= blocked_s) {
+        *blocked = true;
+        kill(pid, SIGKILL);
+        idle = 0;
+      }
+    }
+  }
+  return t;
+}
 inline Outcome run_forked(const Sub &s, const Case &c) {
   int p[2];
   if (pipe(p) != 0) abort();
@@ -296,14 +350,18 @@ inline Outcome run_forked(const Sub &s, const Case &c) {
     finish();
   }
   close(p[1]);
-  std::string t;
-  char buf[4096];
-  ssize_t r;
-  while ((r = read(p[0], buf, sizeof buf)) > 0 || (r < 0 && errno == EINTR))
-    if (r > 0) t.append(buf, r);
+  bool blocked = false;
+  std::string t = read_child_report(p[0], pid, 45, &blocked);
   close(p[0]);
   int wst = 0;
   while (waitpid(pid, &wst, 0) < 0 && errno == EINTR) {
+  }
+  if (blocked) {
+    Outcome o;
+    o.ok = false;
+    o.sig = "hang";
+    o.msg = "child slept in a system call for 45 s without using any CPU time: the code under test blocks for ever";
+    return o;
   }
   if (WIFSIGNALED(wst)) {
     Outcome o;
